@@ -4,7 +4,9 @@
 (* faults (stall, resume, disconnect, cancel) that may strike at any point of any interleaving.            *)
 EXTENDS Spy
 
-CONSTANTS NSubs, NVaas, MaxFaults, MaxStall, MaxResume, MaxFail, MaxCancel, Policies
+CONSTANTS NSubs, NVaas, MaxFaults, MaxStall, MaxResume, MaxFail, MaxCancel, Policies,
+          BadAt,         \* position in the publish order of a message that does not decode as a VAA (0: none)
+          AllowInvalid   \* TRUE: the third subscriber's request may carry a filter entry of an unknown kind
 
 VARIABLE cnt   \* fault budgets used so far (bounding only)
 
@@ -17,7 +19,7 @@ Emitters == {E1, E2}
 AllSubs == <<"s1", "s2", "s3">>
 Subs == {AllSubs[i] : i \in 1..NSubs}
 
-VaaSeq == <<[id |-> "v1", em |-> E1], [id |-> "v2", em |-> E2], [id |-> "v3", em |-> E1]>>
+VaaSeq == [i \in 1..3 |-> [id |-> <<"v1", "v2", "v3">>[i], em |-> <<E1, E2, E1>>[i], ok |-> (i # BadAt)]]
 Vaas == {VaaSeq[i] : i \in 1..NVaas}
 
 FilterChoices(s) ==
@@ -25,13 +27,15 @@ FilterChoices(s) ==
       [] s = "s2" -> {{E1}}
       [] s = "s3" -> {{E2}, {E1, E2}}
 
+Validity(s) == IF AllowInvalid /\ s = "s3" THEN BOOLEAN ELSE {TRUE}
+
 MCInit == Init /\ cnt = [stall |-> 0, resume |-> 0, fail |-> 0, cancel |-> 0]
 
 Total == cnt.stall + cnt.resume + cnt.fail + cnt.cancel
 Bump(f) == Total < MaxFaults /\ cnt' = [cnt EXCEPT ![f] = @ + 1]
 
 Env ==
-    \/ \E s \in Subs : \E F \in FilterChoices(s) : SubscribeCalled(s, F) /\ UNCHANGED cnt
+    \/ \E s \in Subs : \E F \in FilterChoices(s) : \E valid \in Validity(s) : SubscribeCalled(s, F, valid) /\ UNCHANGED cnt
     \/ Len(published) < NVaas /\ PublishCalled(VaaSeq[Len(published) + 1]) /\ UNCHANGED cnt
     \/ \E s \in Subs : cnt.stall < MaxStall /\ Stall(s) /\ Bump("stall")
     \/ \E s \in Subs : cnt.resume < MaxResume /\ Resume(s) /\ Bump("resume")
@@ -39,7 +43,7 @@ Env ==
     \/ \E s \in Subs : cnt.cancel < MaxCancel /\ Cancel(s) /\ Bump("cancel")
 
 Server ==
-    \/ \E s \in Subs : SubRegister(s) \/ SubTake(s) \/ SubCtxDone(s) \/ SubKicked(s) \/ StreamSend(s)
+    \/ \E s \in Subs : SubscribeRefused(s) \/ SubRegister(s) \/ SubTake(s) \/ SubCtxDone(s) \/ SubKicked(s) \/ StreamSend(s)
                        \/ StreamFail(s) \/ Remove(s)
     \/ PubLock \/ (\E s \in Subs : \E c \in Policies : PublishToChoice(s, c)) \/ PubUnlock \/ PublishReturned
 
@@ -52,7 +56,7 @@ TypeOK ==
     /\ mu \in {Nil, "pub"}
     /\ subs \subseteq DOMAIN pc /\ DOMAIN pc \subseteq Subs
     /\ \A s \in DOMAIN pc :
-          /\ pc[s] \in {"start", "loop", "send", "exit", "done"}
+          /\ pc[s] \in {"start", "invalid", "loop", "send", "exit", "done", "refused"}
           /\ filt[s] \subseteq Emitters
           /\ Len(q[s]) <= Cap
           /\ cur[s] \in Vaas \cup {Nil} /\ (cur[s] # Nil <=> pc[s] = "send")
@@ -68,6 +72,10 @@ NeverStuckOnSlow ==
     (pub.pc = "locked" /\ pub.todo # {}) =>
         \/ \E s \in pub.todo : ~Match(s, pub.v) \/ Len(q[s]) < Cap \/ CanDrop(s)
         \/ \A s \in pub.todo : Reading(s) /\ ~lag[s]
+
+\* a subscriber whose request was invalid is never registered and never receives anything
+RefusedGetNothing ==
+    \A s \in DOMAIN pc : pc[s] \in {"invalid", "refused"} => (s \notin subs /\ q[s] = <<>> /\ cur[s] = Nil /\ recv[s] = <<>>)
 
 PublishTerminatesP  == PublishTerminates
 SubscribeTerminates == \A s \in Subs : SubscribeTerminatesFor(s)
